@@ -359,3 +359,24 @@ func Unwatch() {
 	watch.active = false
 	watch.mu.Unlock()
 }
+
+// ---------------------------------------------------------------- the case in flight
+
+var currentPath string
+
+// Current records the case that is about to be run on the implementation, so that a death of the
+// whole process (fatal error: stack overflow, runtime throw) can be attributed to it by the driver.
+func Current(slot string, replay any) {
+	if currentPath == "" {
+		currentPath = filepath.Join(OutDir(), fmt.Sprintf("current-%d.json", Shard()))
+	}
+	b, _ := json.Marshal(map[string]any{"slot": slot, "message": "the process died while this case was running", "case": replay})
+	_ = os.WriteFile(currentPath, b, 0o644)
+}
+
+// ClearCurrent removes the in-flight record.
+func ClearCurrent() {
+	if currentPath != "" {
+		_ = os.Remove(currentPath)
+	}
+}
